@@ -9,4 +9,5 @@ pub mod c09;
 pub mod probe_be;
 pub mod c11_dft;
 pub mod c18;
+pub mod c12;
 pub mod generated;
